@@ -107,7 +107,7 @@ func (p *Path) block(ready func() bool, what string) {
 			panic(deadlockSignal{msg: "all goroutines are asleep: " + what})
 		}
 		i := 0
-		if p.eng.Cfg.Params["sched_fork"] > 0 {
+		if p.eng.Cfg.Params["sched_fork"] > 0 || p.turnSched {
 			i = p.choice(len(cands))
 		}
 		p.switchTo(cur, cands[i])
@@ -163,7 +163,7 @@ func (p *Path) spawn(fr *Frame, pos token.Pos, fn Value, args []Value) {
 				return
 			}
 			i := 0
-			if p.eng.Cfg.Params["sched_fork"] > 0 && len(cands) > 1 {
+			if (p.eng.Cfg.Params["sched_fork"] > 0 || p.turnSched) && len(cands) > 1 {
 				func() {
 					defer func() {
 						if r := recover(); r != nil {
